@@ -936,13 +936,15 @@ MergePorts::MergePorts(std::initializer_list<const rtosc::Ports*> c)
  * @param walker If given, if the enable port is "disabled" and below @p port,
  *               the walker will be applied on the enabling port
  * @param data Data parameter for @p walker
+ * @param port_runtime The runtime object of @p port itself (optional)
  * @return True if no runtime is provided or @p port has no enabled property.
  *         Otherwise, the state of the "enabled by" toggle
  */
 bool port_is_enabled(const Port* port, char* loc, size_t loc_size,
                      const Ports& base, void *runtime,
                      bool relative_to_parent,
-                     port_walker_t walker, void* data)
+                     port_walker_t walker, void* data,
+                     void *port_runtime = NULL)
 {
     // TODO: this code should be improved
     if(port && runtime)
@@ -996,7 +998,10 @@ bool port_is_enabled(const Port* port, char* loc, size_t loc_size,
             fast_strcpy(buf, last_slash ? last_slash + 1 : collapsed_loc,
                         loc_size); // TODO: bug: VoicePar#8/Enabled
 
-            helpers::get_value_from_runtime(runtime,
+            // an enabling port inside the port itself (name/toggle) belongs
+            // to the port's own runtime object, not to its parent's
+            helpers::get_value_from_runtime(
+                (subport && port_runtime) ? port_runtime : runtime,
                 *ask_port, loc_size, collapsed_loc, buf,
                 8192, 1, &rval, nullptr);
             assert(rval.type == 'T' || rval.type == 'F' || rval.type == 'i');
@@ -1082,7 +1087,8 @@ static void walk_ports_recurse(const Port& p, char* name_buffer,
         {
             // check if the port is disabled by a switch
             enabled = port_is_enabled(&p, name_buffer, buffer_size,
-                                      base, runtime, true, walker, data);
+                                      base, runtime, true, walker, data,
+                                      r.obj);
             runtime = r.obj; // callback has stored the pointer of p here
         }
     }
